@@ -123,6 +123,7 @@ class Engine:
     components: dict = {}
     timeout_s = 20.0          # per-run wall guard; None => engine is step-budgeted itself
     default_workers = 16
+    fresh_candidates = False  # minimiser evaluates every candidate in a fresh interpreter (process-global state is the subject)
 
     def warmup(self) -> None:  # fixed first-use effects, before the first run of a process
         pass
@@ -318,10 +319,12 @@ def ddmin_list(items: list, test, budget: list[int]) -> list:
     return items
 
 
-def minimise(engine: Engine, rec: dict, violation: dict, max_exec: int = 400) -> dict:
+def minimise(engine: Engine, rec: dict, violation: dict, max_exec: int = 400, hashseed: str = "0") -> dict:
     """Greedy fix-point over the engine's candidate stream, same violation class required."""
     cls = violation["cls"]
     budget = max_exec if cls != "HANG" else 12     # every candidate of a hanging run costs the full wall guard
+    if engine.fresh_candidates:
+        budget = min(budget, 150)
 
     cur = rec
     progress = True
@@ -332,12 +335,16 @@ def minimise(engine: Engine, rec: dict, violation: dict, max_exec: int = 400) ->
                 break
             budget -= 1
             try:
-                r = execute_guarded(engine, cand)
-            except HarnessError:
+                if engine.fresh_candidates:
+                    # what an earlier candidate left in this process must not make a later one "fail"
+                    v = fresh_exec(engine.prop, cand, hashseed, timeout=120.0)["violation"]
+                else:
+                    v = execute_guarded(engine, cand).violation
+            except (HarnessError, subprocess.TimeoutExpired):
                 continue
             except Exception:
                 continue
-            if r.violation is not None and r.violation["cls"] == cls:
+            if v is not None and v["cls"] == cls:
                 cur = cand
                 progress = True
                 break
@@ -564,13 +571,15 @@ def run_check(engine: Engine, tier: str, seed: int, hashseed: str) -> int:
     return rc
 
 
-def minimise_and_write(engine: Engine, seed: int, f: dict, hashseed: str) -> str:
+def minimise_and_write(engine: Engine, seed: int, f: dict, hashseed: str, no_minimise: bool = False) -> str:
     """Minimise in a fresh interpreter (so earlier runs cannot help), write the replay file,
-    verify that the replay reproduces in yet another fresh interpreter."""
+    verify that the replay reproduces in yet another fresh interpreter.  If the minimised record does not (what the
+    minimiser's process executed before can matter on a tree with process-global state), fall back to the original,
+    already confirmed record."""
     os.makedirs(os.path.join(VERIF_DIR, "tmp"), exist_ok=True)
     inp = os.path.join(VERIF_DIR, "tmp", f"min-{os.getpid()}-{f['run_index']}.json")
     with open(inp, "w") as fh:
-        json.dump({"seed": seed, "fail": f, "hashseed": hashseed}, fh)
+        json.dump({"seed": seed, "fail": f, "hashseed": hashseed, "no_minimise": no_minimise}, fh)
     try:
         p = subprocess.run([sys.executable, CHECK, engine.prop, "--minimise", inp],
                            env=_child_env(hashseed), capture_output=True, text=True, timeout=1800)
@@ -585,6 +594,8 @@ def minimise_and_write(engine: Engine, seed: int, f: dict, hashseed: str) -> str
     p = subprocess.run([sys.executable, CHECK, engine.prop, "--replay", path],
                        env=_child_env(hashseed), capture_output=True, text=True, timeout=600)
     if p.returncode != EXIT_VIOLATION:
+        if not no_minimise:
+            return minimise_and_write(engine, seed, f, hashseed, no_minimise=True)
         raise HarnessError(f"replay {path} does not reproduce in a fresh interpreter: {p.stdout[-500:]}")
     return path
 
@@ -597,8 +608,11 @@ def child_minimise(engine: Engine, inp: str) -> int:
     res0 = execute_guarded(engine, f["record"])
     if res0.violation is None:
         raise HarnessError("minimiser: original record does not fail here")
-    mini = minimise(engine, f["record"], res0.violation)
-    res = execute_guarded(engine, mini)
+    if job.get("no_minimise"):
+        mini = f["record"]
+    else:
+        mini = minimise(engine, f["record"], res0.violation, hashseed=hashseed)
+    res = execute_guarded(engine, mini) if mini is not f["record"] else res0
     if res.violation is None or res.violation["cls"] != res0.violation["cls"]:
         mini, res = f["record"], res0
     print(write_replay(engine, seed, f, mini, res, hashseed))
